@@ -873,6 +873,13 @@ V("c17f-one-particle-via-local", "C17", "silent",
 V("c17e-sign-selected-by-occupation-test", "C17", {"rule": "C17e", "contains": "squeezing2"},
   (FFS, "            if j < size:\n                state._state_vector = connector.assign(\n                    state._state_vector, ((i, j),), U @ state._state_vector[(i, j),]\n                )",
    "            if j < size:\n                if fallback_np.sum(index[: modes[0]]) % 2 == 1:\n                    pair_unitary = np.array([[1.0, -1.0], [-1.0, 1.0]]) * U\n                else:\n                    pair_unitary = U\n                state._state_vector = connector.assign(\n                    state._state_vector, ((i, j),), pair_unitary @ state._state_vector[(i, j),]\n                )"))
+FGSTEPS = "piquasso/fermionic/gaussian/simulation_steps.py"
+V("c17g-samples-from-normal-block-only", "C17", {"rule": "C17g", "contains": "get_probability"},
+  (FGSTEPS, "        reduced_state = state.reduced(subspace_modes)\n\n        return float(\n            reduced_state.get_particle_detection_probability(\n                fallback_np.array(occupation_numbers)\n            )\n        )",
+   "        index = fallback_np.ix_(subspace_modes, subspace_modes)\n        reduced_D = state._D[index]\n        occupied = fallback_np.array(occupation_numbers).reshape(-1, 1)\n        kernel = occupied * reduced_D + (1 - occupied) * (fallback_np.identity(len(subspace_modes)) - reduced_D)\n        return float(fallback_np.real(fallback_np.linalg.det(kernel)))"))
+V("c11h-module-cache-get-form-omits-cutoff", "C11", {"rule": "C11h", "contains": "module cache"},
+  (NPCONN, "@nb.njit(cache=True)\ndef calculate_interferometer_on_fermionic_fock_space(matrix, cutoff):",
+   "_representations_cache: dict = {}\n\n\ndef calculate_interferometer_on_fermionic_fock_space(matrix, cutoff):\n    key = (matrix.shape, matrix.tobytes())\n    representations = _representations_cache.get(key)\n    if representations is None:\n        representations = _calculate_representations(matrix, cutoff)\n        _representations_cache[key] = representations\n    return representations\n\n\n@nb.njit(cache=True)\ndef _calculate_representations(matrix, cutoff):"))
 V("c17d-amplitude-map-unchecked", "C17", {"rule": "C17d", "contains": "state_vector"},
   (FFSTEPS, "                if len(occ_numbers) != state._d or not all_zero_or_one(occ_numbers):", "                if len(occ_numbers) != state._d:"))
 V("c17d-gaussian-unchecked", "C17", {"rule": "C17d", "contains": "state_vector"},
